@@ -99,6 +99,12 @@ def _solve_group(args):
           else:
             r = r1
             r["note"] = "counter-model satisfies the integer part of the path condition; floating-point feasibility of that path was not established by the solver"
+      if r is None and ob.meta.get("raw_first") and ob.expect != "refutable":
+        # small hand-structured queries (hypotheses = statements of earlier obligations): the untouched query first;
+        # the preprocessing of smt.check is tuned for large path conditions and can make these harder
+        r0 = smt.check_small(list(ob.assumptions), ob.goal, 5000)
+        if r0["status"] == "unsat":
+          r = r0
       if r is None and ob.meta.get("quantified") and ob.expect != "refutable":
         r = smt.check_quantified(ob.assumptions, ob.goal, timeout_ms=ob.meta.get("timeout_ms", max(timeout, 30000)), seed=seed)
         if r["status"] != "unsat" and ob.meta.get("search"):
